@@ -889,11 +889,7 @@ func (w *Worker) checkIndex(idx value, idxType types.Type, n int, what string) i
 	if t, ok := idx.(*Term); ok {
 		_, signed, _ := intInfo(idxType)
 		var inRange *Term
-		if signed {
-			inRange = w.tt.And(w.tt.Cmp(OpSLe, w.tt.Const(t.W, 0), t), w.tt.Cmp(OpSLt, t, w.tt.Const(t.W, uint64(n))))
-		} else {
-			inRange = w.tt.Cmp(OpULt, t, w.tt.Const(t.W, uint64(n)))
-		}
+		inRange = w.indexInRange(t, signed, n)
 		if !w.decide(lower(types.Typ[types.Bool], inRange), "bounds:"+what) {
 			panic(targetPanic{w.runtimeError(fmt.Sprintf("index out of range [sym] with length %d", n))})
 		}
@@ -907,6 +903,23 @@ func (w *Worker) checkIndex(idx value, idxType types.Type, n int, what string) i
 		panic(targetPanic{w.runtimeError(fmt.Sprintf("index out of range [%d] with length %d", i, n))})
 	}
 	return int(i)
+}
+
+// indexInRange is the bounds obligation 0 <= t < n for an index term of t's own width.  When n does
+// not fit in that width (a byte indexing a 256-entry table) the upper bound holds for every value;
+// building the constant n in t's width would wrap it (256 -> 0 in 8 bits) and make the check fail.
+func (w *Worker) indexInRange(t *Term, signed bool, n int) *Term {
+	if signed {
+		nonNeg := w.tt.Cmp(OpSLe, w.tt.Const(t.W, 0), t)
+		if t.W < 64 && uint64(n) > uint64(1)<<(uint(t.W)-1)-1 {
+			return nonNeg
+		}
+		return w.tt.And(nonNeg, w.tt.Cmp(OpSLt, t, w.tt.Const(t.W, uint64(n))))
+	}
+	if t.W < 64 && uint64(n) >= uint64(1)<<uint(t.W) {
+		return w.tt.Cmp(OpULe, t, t) // true
+	}
+	return w.tt.Cmp(OpULt, t, w.tt.Const(t.W, uint64(n)))
 }
 
 func isSymbolic(v value) bool {
@@ -1283,23 +1296,41 @@ func (w *Worker) indexRead(elems []value, idx value, idxType, elemType types.Typ
 		return elems[w.checkIndex(idx, idxType, len(elems), "index")]
 	}
 	wd, _, isInt := intInfo(elemType)
-	if !isInt || len(elems) > 64 {
+	if !isInt || len(elems) > 256 {
 		return elems[w.checkIndex(idx, idxType, len(elems), "index")]
 	}
 	// bounds obligation
 	_, signed, _ := intInfo(idxType)
 	var inRange *Term
 	n := len(elems)
-	if signed {
-		inRange = w.tt.And(w.tt.Cmp(OpSLe, w.tt.Const(t.W, 0), t), w.tt.Cmp(OpSLt, t, w.tt.Const(t.W, uint64(n))))
-	} else {
-		inRange = w.tt.Cmp(OpULt, t, w.tt.Const(t.W, uint64(n)))
-	}
+	inRange = w.indexInRange(t, signed, n)
 	if !w.decide(lower(types.Typ[types.Bool], inRange), "bounds:index") {
 		panic(targetPanic{w.runtimeError(fmt.Sprintf("index out of range [sym] with length %d", n))})
 	}
-	acc := w.lift(elems[n-1], wd)
-	for i := n - 2; i >= 0; i-- {
+	// lookup tables are mostly one filler value (base64 / hex decode maps): start from the most frequent
+	// concrete entry and add a case only for the entries that differ from it
+	base, freq := -1, map[interface{}]int{}
+	for i, e := range elems {
+		if _, sym := e.(*Term); sym {
+			continue
+		}
+		k := mapKey(e)
+		freq[k]++
+		if base < 0 || freq[k] > freq[mapKey(elems[base])] {
+			base = i
+		}
+	}
+	if base < 0 {
+		base = n - 1
+	}
+	acc := w.lift(elems[base], wd)
+	for i := n - 1; i >= 0; i-- {
+		if i == base {
+			continue
+		}
+		if _, sym := elems[i].(*Term); !sym && mapKey(elems[i]) == mapKey(elems[base]) {
+			continue
+		}
 		acc = w.tt.Ite(w.tt.Eq(t, w.tt.Const(t.W, uint64(i))), w.lift(elems[i], wd), acc)
 	}
 	return lower(elemType, acc)
